@@ -472,6 +472,47 @@ def build(tier, seed):
          pre=["0 <= kind <= 9", "0 <= n <= 2", "0 <= s0 < len(SUB)", "0 <= s1 < len(SUB)"], timeout=tmo * 5,
          family="get_literal_expr on containers of look-alikes",
          bounds="10 container shapes (list, tuple, set, frozenset, dict, nested, tuple/list subclasses) x <=2 elements from 16 look-alikes (incl. nan, inf, -0.0)")
+    m.nat("lit_unrenderable", '''
+def _unrenderable_pool():
+    import dataclasses
+    big = 10 ** 5000
+    rec = []; rec.append(rec)
+    recd = {}; recd["k"] = recd
+    deep = []
+    for _ in range(3000): deep = [deep]
+    return [("big", big), ("neg_big", -big), ("list_big", [big]), ("tuple_big", (1, big)), ("dict_big", {"k": big}), ("rec_list", rec), ("rec_dict", recd), ("deep", deep)]
+
+def unrenderable_case(i):
+    import dataclasses
+    name, v = _unrenderable_pool()[i]
+    try:
+        e = get_literal_expr(v)
+    except Exception:
+        return False
+    if e is not None: return False                       # none of these has a source form the compiler accepts
+    try:
+        is_singleton(v)
+    except Exception:
+        return False
+    # end to end: a model with such a default gets a loader, and the omitted field holds the default object itself
+    M = dataclasses.make_dataclass("MU", [("a", int), ("d", Any, dataclasses.field(default=v))]) if not isinstance(v, (list, dict)) else \
+        dataclasses.make_dataclass("MU", [("a", int), ("d", Any, dataclasses.field(default_factory=lambda: v))])
+    from adaptix import Retort
+    for dt in DT_MODES:
+        obj = Retort(debug_trail=dt).get_loader(M)({"a": 1})
+        if obj.d is not v and not (type(obj.d) is type(v) and obj.d == v): return False
+    return True
+
+def nat_lit_unrenderable():
+    bad = [{"i": str(i)} for i in range(len(_unrenderable_pool())) if not unrenderable_case(i)]
+    return {"status": "REFUTED" if bad else "CONFIRMED", "cexs": bad[:5], "evaluations": len(_unrenderable_pool()),
+            "note": "labelled native enumeration: values whose repr raises or recurses (no symbolic form under the engine)"}
+
+def chk_lit_unrenderable(i):
+    return unrenderable_case(i)
+''', timeout=120, family="get_literal_expr / is_singleton on defaults that have no source form (labelled enumeration)",
+          bounds="ints beyond the int -> str conversion limit (also inside list / tuple / dict), self-referential list and dict, a list nested 3000 deep; "
+                 "renderer returns None, and a model with such a default loads (3 debug modes)")
     m.ob("lit_range", "kind: int, a: int, b: int, c: int", "return lit_ok(rng(kind, a, b, c))",
          pre=["0 <= kind <= 1", "0 <= a <= 3", "0 <= b <= 3", "0 <= c <= 2"], timeout=tmo,
          family="get_literal_expr on slice/range", bounds="start, stop in [-1,2], step in [1,3]")
